@@ -44,6 +44,8 @@ func init() {
 		MinRuns:    50,
 		Exec:       runC08,
 		PanicClass: kit.PanicInRepo("state-panic"),
+		// reach probes every batch is expected to hit (listed in the evidence as probes_never_hit otherwise)
+		ExpectedProbes: []string{"delegation-created", "delegation-removed", "getvalidators-cache-stale-on-mutated-object", "getvalidators-on-live-object", "penalty-applied", "reverted:createval", "reverted:deleg", "reverted:rmwd", "reverted:updinplace", "reverted:updval1", "reverted:updval2", "reverted:updval6", "validator-created", "validator-token-reached-zero", "zero-token-validator-deleted"},
 	})
 }
 
